@@ -786,6 +786,8 @@ func (db *DB) buildListIdx(bucket string, r *Record) error {
 		return ErrEntryIdxModeOpt
 	}
 
+	// Errors of the list operations are ignored exactly as Tx.buildListIdx ignores them at commit time:
+	// an operation that was a no-op when it was committed must be a no-op on replay, not a failed Open.
 	switch r.H.meta.Flag {
 	case DataLPushFlag:
 		_, _ = db.ListIdx[bucket].LPush(string(r.E.Key), r.E.Value)
@@ -796,32 +798,22 @@ func (db *DB) buildListIdx(bucket string, r *Record) error {
 		count, _ := strconv2.StrToInt(countAndValueIndex[0])
 		value := []byte(countAndValueIndex[1])
 
-		if _, err := db.ListIdx[bucket].LRem(string(r.E.Key), count, value); err != nil {
-			return ErrWhenBuildListIdx(err)
-		}
+		_, _ = db.ListIdx[bucket].LRem(string(r.E.Key), count, value)
 	case DataLPopFlag:
-		if _, err := db.ListIdx[bucket].LPop(string(r.E.Key)); err != nil {
-			return ErrWhenBuildListIdx(err)
-		}
+		_, _ = db.ListIdx[bucket].LPop(string(r.E.Key))
 	case DataRPopFlag:
-		if _, err := db.ListIdx[bucket].RPop(string(r.E.Key)); err != nil {
-			return ErrWhenBuildListIdx(err)
-		}
+		_, _ = db.ListIdx[bucket].RPop(string(r.E.Key))
 	case DataLSetFlag:
 		keyAndIndex := strings.Split(string(r.E.Key), SeparatorForListKey)
 		newKey := keyAndIndex[0]
 		index, _ := strconv2.StrToInt(keyAndIndex[1])
-		if err := db.ListIdx[bucket].LSet(newKey, index, r.E.Value); err != nil {
-			return ErrWhenBuildListIdx(err)
-		}
+		_ = db.ListIdx[bucket].LSet(newKey, index, r.E.Value)
 	case DataLTrimFlag:
 		keyAndStartIndex := strings.Split(string(r.E.Key), SeparatorForListKey)
 		newKey := keyAndStartIndex[0]
 		start, _ := strconv2.StrToInt(keyAndStartIndex[1])
 		end, _ := strconv2.StrToInt(string(r.E.Value))
-		if err := db.ListIdx[bucket].Ltrim(newKey, start, end); err != nil {
-			return ErrWhenBuildListIdx(err)
-		}
+		_ = db.ListIdx[bucket].Ltrim(newKey, start, end)
 	}
 
 	return nil
